@@ -447,3 +447,420 @@ Proof.
     destruct (w_err (close_cb d w)); up; rewrite C; reflexivity.
   - rewrite Hn. up. exact Ec.
 Qed.
+
+(* ------------------------------------------------------------------ (c) callback protocol *)
+Fixpoint last_ans (la : option bool) (l : list ev) : option bool :=
+  match l with [] => la | EAns f :: l => last_ans (Some f) l | _ :: l => last_ans la l end.
+
+Lemma proto_app la l1 l2 : proto la (l1 ++ l2) <-> proto la l1 /\ proto (last_ans la l1) l2.
+Proof.
+  revert la. induction l1 as [|e l1 IH]; intros la; [cbn; tauto|].
+  destruct e as [k f o| | | | | | | |]; [destruct f|..]; cbn; rewrite ?IH; tauto.
+Qed.
+
+Definition pneutral (seg : list ev) : Prop := forall la, proto la seg.
+Lemma pneutral_app s1 s2 : pneutral s1 -> pneutral s2 -> pneutral (s1 ++ s2).
+Proof. intros H1 H2 la. apply proto_app. split; [apply H1|apply H2]. Qed.
+
+Definition pn1 (e : ev) : Prop := match e with ECb k f _ => f = false \/ k = 3 | _ => True end.
+Lemma pn1_seg seg : Forall pn1 seg -> pneutral seg.
+Proof.
+  induction 1 as [|e l He _ IH]; intros la; [exact I|].
+  destruct e as [k f o| | | | | | | |]; try apply IH.
+  destruct f; [|apply IH]. cbn in He. destruct He as [He|He]; [discriminate|]. subst k.
+  cbn. split; [discriminate|]. split; [discriminate|apply IH].
+Qed.
+Lemma midok_pn1 b e : midok b e -> pn1 e.
+Proof. destruct e; cbn; auto. intros [H _]; auto. Qed.
+Lemma lowok_pn1 b e : lowok b e -> pn1 e.
+Proof. intros; eapply midok_pn1, lowok_midok; eauto. Qed.
+Lemma stok_pn1 e : stok e -> pn1 e.
+Proof. intros; eapply (lowok_pn1 true), stok_lowok; eauto. Qed.
+Lemma evok_false_pn1 e : evok false e -> pn1 e.
+Proof. destruct e; cbn; auto. Qed.
+
+Definition extn (w w' : world) : Prop := exists seg, w_log w' = w_log w ++ seg /\ pneutral seg.
+Lemma extn_refl w : extn w w.
+Proof. exists []. rewrite app_nil_r. split; [reflexivity|intros la; exact I]. Qed.
+Lemma extn_trans w1 w2 w3 : extn w1 w2 -> extn w2 w3 -> extn w1 w3.
+Proof.
+  intros [s1 [E1 F1]] [s2 [E2 F2]]. exists (s1 ++ s2). split; [|apply pneutral_app; auto].
+  rewrite E2, E1, app_assoc. reflexivity.
+Qed.
+Lemma ext_extn (P : ev -> Prop) w w' : (forall e, P e -> pn1 e) -> ext P w w' -> extn w w'.
+Proof.
+  intros H [seg [E F]]. exists seg. split; [exact E|]. apply pn1_seg.
+  eapply Forall_impl; [|exact F]. exact H.
+Qed.
+Lemma extn_eq_log w1 w1' w2 : w_log w1' = w_log w1 -> extn w1' w2 -> extn w1 w2.
+Proof. intros H [s [E F]]. exists s. rewrite <- H. auto. Qed.
+Lemma extn_eq_log_r w1 w2 w2' : w_log w2' = w_log w2 -> extn w1 w2 -> extn w1 w2'.
+Proof. intros H [s [E F]]. exists s. rewrite H. auto. Qed.
+
+(* packet state invariant: an open packet is full only when its header fills the whole buffer; a
+   closed packet is in the "full" state *)
+Definition KK (w : world) : Prop :=
+  (c_open (w_c w) = true -> c_at (w_c w) = c_psize (w_c w) -> c_off_content (w_c w) = c_psize (w_c w)) /\
+  (c_open (w_c w) = false -> c_at (w_c w) = c_psize (w_c w)).
+
+Lemma KK_same w w' :
+  KK w -> c_open (w_c w') = c_open (w_c w) -> c_at (w_c w') = c_at (w_c w) ->
+  c_psize (w_c w') = c_psize (w_c w) -> c_off_content (w_c w') = c_off_content (w_c w) -> KK w'.
+Proof. unfold KK. intros [K1 K2] -> -> -> ->. auto. Qed.
+
+Lemma open_core_dec d ts w :
+  ((c_enabled (w_c w) = false /\ c_in_ts (w_c w) = false) \/ c_open (w_c w) = true) /\ open_core d ts w = w \/
+  (c_enabled (w_c w) = true \/ c_in_ts (w_c w) = true) /\ c_open (w_c w) = false /\
+  open_core d ts w = open_do d ts w.
+Proof.
+  unfold open_core.
+  destruct (c_enabled (w_c w)) eqn:E1, (c_in_ts (w_c w)) eqn:E3, (c_open (w_c w)) eqn:E2; cbn [negb andb];
+    try (left; split; [auto|]; first [rewrite <- E3 at 1; apply set_in_ts_id | rewrite <- E3; apply set_in_ts_id2]);
+    try (right; auto; fail).
+Qed.
+
+Lemma close_core_dec d ts w :
+  ((c_enabled (w_c w) = false /\ c_in_ts (w_c w) = false) \/ c_open (w_c w) = false) /\ close_core d ts w = w \/
+  (c_enabled (w_c w) = true \/ c_in_ts (w_c w) = true) /\ c_open (w_c w) = true /\
+  close_core d ts w = close_do d ts w.
+Proof.
+  unfold close_core.
+  destruct (c_enabled (w_c w)) eqn:E1, (c_in_ts (w_c w)) eqn:E3, (c_open (w_c w)) eqn:E2; cbn [negb andb];
+    try (left; split; [auto|]; first [rewrite <- E3 at 1; apply set_in_ts_id | rewrite <- E3; apply set_in_ts_id2]);
+    try (right; auto; fail).
+Qed.
+
+Lemma cb_enter_pk k w :
+  c_open (w_c (cb_enter k w)) = c_open (w_c w) /\ c_at (w_c (cb_enter k w)) = c_at (w_c w) /\
+  c_psize (w_c (cb_enter k w)) = c_psize (w_c w) /\
+  c_off_content (w_c (cb_enter k w)) = c_off_content (w_c w) /\
+  c_in_ts (w_c (cb_enter k w)) = c_in_ts (w_c w).
+Proof. unfold cb_enter; up; togs; repeat split. Qed.
+
+(* the opening callback: either nothing happens to the packet state, or a packet is opened *)
+Lemma open_cb_dec d w :
+  let w' := open_cb d w in
+  (c_open (w_c w') = c_open (w_c w) /\ c_at (w_c w') = c_at (w_c w) /\
+   c_psize (w_c w') = c_psize (w_c w) /\ c_off_content (w_c w') = c_off_content (w_c w) /\
+   (c_in_ts (w_c w) = true -> c_open (w_c w) = true)) \/
+  (c_open (w_c w) = false /\ c_open (w_c w') = true /\ c_at (w_c w') = c_off_content (w_c w') /\
+   c_psize (w_c w') = c_psize (w_c w)).
+Proof.
+  cbv zeta. rewrite open_cb_eq, open_fn_eq.
+  destruct (cb_enter_pk 1 w) as [O0 [A0 [P0 [F0 I0]]]].
+  destruct (preamble_frame d (cb_enter 1 w) (has_member (d_pc d) "timestamp_begin")) as [S _].
+  unfold same_packet in S. set (w1 := snd (preamble_ts d (cb_enter 1 w) _)) in *.
+  set (ts := fst (preamble_ts d (cb_enter 1 w) _)).
+  destruct (open_core_dec d ts w1) as [[C E]|[C [Ho E]]]; rewrite E.
+  - left. repeat split; try (intuition congruence).
+    all: intros Hi; destruct C as [[_ C]|C]; intuition congruence.
+  - right. destruct (open_do_post d ts w1) as [P _]. unfold open_post in P.
+    repeat split; intuition congruence.
+Qed.
+
+Lemma close_cb_dec d w :
+  let w' := close_cb d w in
+  (c_open (w_c w') = c_open (w_c w) /\ c_at (w_c w') = c_at (w_c w) /\
+   c_psize (w_c w') = c_psize (w_c w) /\ c_off_content (w_c w') = c_off_content (w_c w) /\
+   (c_in_ts (w_c w) = true -> c_open (w_c w) = false)) \/
+  (c_open (w_c w) = true /\ c_open (w_c w') = false /\ c_at (w_c w') = c_psize (w_c w')).
+Proof.
+  cbv zeta. rewrite close_cb_eq, close_fn_eq.
+  destruct (cb_enter_pk 2 w) as [O0 [A0 [P0 [F0 I0]]]].
+  destruct (preamble_frame d (cb_enter 2 w) (has_member (d_pc d) "timestamp_end")) as [S _].
+  unfold same_packet in S. set (w1 := snd (preamble_ts d (cb_enter 2 w) _)) in *.
+  set (ts := fst (preamble_ts d (cb_enter 2 w) _)).
+  assert (O1 : c_open (w_c w1) = c_open (w_c w)) by (intuition congruence).
+  destruct (close_core_dec d ts w1) as [[C E]|[C [Ho E]]]; rewrite E.
+  - left. unfold close_hand. rewrite O1. destruct (c_open (w_c w)) eqn:Eo; cbn [andb negb].
+    + repeat split; try (intuition congruence).
+      all: intros Hi; destruct C as [[_ C]|C]; intuition congruence.
+    + repeat split; intuition congruence.
+  - right. destruct (close_do_post d ts w1) as [P _]. unfold close_post in P.
+    destruct P as [P1 [P2 _]]. set (w2 := close_do d ts w1) in *.
+    unfold close_hand. rewrite <- O1, Ho, P1. cbn [andb negb].
+    split; [reflexivity|]. destruct (a_newbuf _); up; [|auto].
+    split; [exact P1|]. rewrite P2, Nat.eqb_refl. reflexivity.
+Qed.
+
+Lemma open_cb_KK d w : KK w -> KK (open_cb d w).
+Proof.
+  intros K. destruct (open_cb_dec d w) as [[O [A [P [F _]]]]|[_ [O [A _]]]].
+  - eapply KK_same; eauto.
+  - split; [intros _ H; congruence|congruence].
+Qed.
+Lemma close_cb_KK d w : KK w -> KK (close_cb d w).
+Proof.
+  intros K. destruct (close_cb_dec d w) as [[O [A [P [F _]]]]|[_ [O A]]].
+  - eapply KK_same; eauto.
+  - split; [congruence|auto].
+Qed.
+
+(* KK /\ flag = 1 is kept by every block used inside _reserve_er_space *)
+Definition KKin (w : world) : Prop := KK w /\ c_in_ts (w_c w) = true.
+
+Lemma reserve_KKin d w n : KKin w -> KKin (snd (reserve d w n)).
+Proof.
+  intros [K Hi]. split; [|apply (reserve_blk d true w n Hi)].
+  revert K. apply reserve_inv; intros w' K'.
+  - rewrite full_cb_eq. eapply KK_same; [exact K'|..]; up; togs; reflexivity.
+  - unfold with_use_ts.
+    match goal with |- KK (set_c (open_cb d ?w0) _) =>
+      assert (K0 : KK (open_cb d w0)) by (apply open_cb_KK; exact K'); exact K0 end.
+  - unfold with_use_ts.
+    match goal with |- KK (set_c (close_cb d ?w0) _) =>
+      assert (K0 : KK (close_cb d w0)) by (apply close_cb_KK; exact K'); exact K0 end.
+  - exact K'.
+  - exact K'.
+Qed.
+
+(* tracer-initiated callbacks, precise shape *)
+Lemma wopen d w :
+  c_in_ts (w_c w) = true -> c_open (w_c w) = false ->
+  let w' := with_use_ts (open_cb d) w in
+  c_open (w_c w') = true /\ c_in_ts (w_c w') = true /\
+  exists seg, w_log w' = w_log w ++ ECb 1 true false :: seg /\ Forall (lowok true) seg.
+Proof.
+  intros Hi Ho. cbv zeta. unfold with_use_ts. set (w0 := set_c w (set_use_ts (w_c w) true)).
+  destruct (open_cb_shape d true w0 Hi) as [A [seg [E F]]].
+  destruct (open_cb_dec d w0) as [[_ [_ [_ [_ X]]]]|[_ [O _]]].
+  - specialize (X Hi). unfold w0 in X. up. congruence.
+  - up. split; [exact O|]. split; [exact A|]. exists seg. split; [|exact F].
+    rewrite E. unfold w0. up. rewrite Ho. reflexivity.
+Qed.
+
+Lemma close_cb_in d w :
+  c_in_ts (w_c w) = true -> c_open (w_c w) = true ->
+  c_open (w_c (close_cb d w)) = false /\ c_in_ts (w_c (close_cb d w)) = true /\
+  exists seg, w_log (close_cb d w) = w_log w ++ ECb 2 true true :: seg /\ Forall (midok true) seg.
+Proof.
+  intros Hi Ho.
+  destruct (close_cb_shape d true w Hi) as [A [seg [E F]]].
+  destruct (close_cb_dec d w) as [[_ [_ [_ [_ X]]]]|[_ [O _]]].
+  - specialize (X Hi). congruence.
+  - split; [exact O|]. split; [exact A|]. exists seg. split; [|exact F]. rewrite E, Ho. reflexivity.
+Qed.
+
+Lemma wclose d w :
+  c_in_ts (w_c w) = true -> c_open (w_c w) = true ->
+  let w' := with_use_ts (close_cb d) w in
+  c_open (w_c w') = false /\ c_in_ts (w_c w') = true /\
+  exists seg, w_log w' = w_log w ++ ECb 2 true true :: seg /\ Forall (midok true) seg.
+Proof.
+  intros Hi Ho. cbv zeta. unfold with_use_ts. set (w0 := set_c w (set_use_ts (w_c w) true)).
+  destruct (close_cb_in d w0 Hi Ho) as [O [A X]]. up. auto.
+Qed.
+
+Lemma full_cb_pk w :
+  let w' := snd (full_cb w) in
+  c_open (w_c w') = c_open (w_c w) /\ c_in_ts (w_c w') = c_in_ts (w_c w) /\
+  w_log w' = w_log w ++ [ECb 0 (c_in_ts (w_c w)) (c_open (w_c w)); EAns (fst (full_cb w))].
+Proof. cbv zeta. rewrite full_cb_eq. up. togs. repeat split. Qed.
+
+Lemma no_space_extn w : extn w (snd (no_space w)).
+Proof. rewrite no_space_eq. exists [EDisc]. split; [reflexivity|]. intros la; exact I. Qed.
+
+(* is_backend_full answered "not full", then the open callback *)
+Lemma full_then_open d w :
+  c_in_ts (w_c w) = true -> c_open (w_c w) = false -> fst (full_cb w) = false ->
+  let w' := with_use_ts (open_cb d) (snd (full_cb w)) in
+  c_open (w_c w') = true /\ c_in_ts (w_c w') = true /\ extn w w'.
+Proof.
+  intros Hi Ho Hf. cbv zeta. destruct (full_cb_pk w) as [O1 [I1 L1]].
+  destruct (wopen d (snd (full_cb w))) as [O2 [I2 [seg [E F]]]]; [congruence|congruence|].
+  split; [exact O2|]. split; [exact I2|].
+  exists ([ECb 0 (c_in_ts (w_c w)) (c_open (w_c w)); EAns false] ++ ECb 1 true false :: seg).
+  split; [rewrite E, L1, Hf, <- app_assoc; reflexivity|].
+  intros la. rewrite Hi. cbn. split; [discriminate|]. split; [discriminate|].
+  split; [auto|]. split; [discriminate|].
+  apply pn1_seg. eapply Forall_impl; [|exact F]. intros e; apply lowok_pn1.
+Qed.
+
+Lemma full_then_nospace w :
+  c_in_ts (w_c w) = true -> extn w (snd (no_space (snd (full_cb w)))).
+Proof.
+  intros Hi. eapply extn_trans; [|apply no_space_extn].
+  destruct (full_cb_pk w) as [_ [_ L1]]. eexists. split; [exact L1|].
+  intros la. rewrite Hi. cbn. split; [discriminate|]. split; [discriminate|exact I].
+Qed.
+
+Lemma reserve2_proto d n w :
+  c_in_ts (w_c w) = true -> c_open (w_c w) = true ->
+  extn w (snd (reserve2 d n w)) /\ (fst (reserve2 d n w) = true -> c_open (w_c (snd (reserve2 d n w))) = true).
+Proof.
+  intros Hi Ho. unfold reserve2.
+  destruct (gt_diff32 n (c_psize (w_c w)) (c_at (w_c w))); [|split; [apply extn_refl|auto]].
+  cbv zeta. destruct (wclose d w Hi Ho) as [O1 [I1 [seg [E F]]]].
+  set (w1 := with_use_ts (close_cb d) w) in *.
+  assert (X1 : extn w w1).
+  { exists (ECb 2 true true :: seg). split; [exact E|]. intros la. cbn.
+    split; [discriminate|]. split; [auto|].
+    apply pn1_seg. eapply Forall_impl; [|exact F]. intros e; apply midok_pn1. }
+  destruct (fst (full_cb w1)) eqn:Hf.
+  - split; [|discriminate]. eapply extn_trans; [exact X1|]. apply full_then_nospace, I1.
+  - destruct (full_then_open d w1 I1 O1 Hf) as [O2 [I2 X2]].
+    set (w2 := with_use_ts (open_cb d) (snd (full_cb w1))) in *.
+    destruct (gt_diff32 n (c_psize (w_c w2)) (c_at (w_c w2))); cbn [fst snd].
+    + split; [|intros _; exact O2]. eapply extn_trans; [exact X1|]. eapply extn_trans; [exact X2|].
+      exists [EErr 2]. split; [reflexivity|intros la; exact I].
+    + split; [|intros _; exact O2]. eapply extn_trans; eauto.
+Qed.
+
+Lemma gt_diff32_full n p : 0 < n -> gt_diff32 n p p = true.
+Proof. intros H. unfold gt_diff32. rewrite Nat.leb_refl, Nat.sub_diag. apply Nat.ltb_lt, H. Qed.
+
+Lemma reserve_proto d w n :
+  KKin w -> 0 < n ->
+  extn w (snd (reserve d w n)) /\ (fst (reserve d w n) = true -> c_open (w_c (snd (reserve d w n))) = true).
+Proof.
+  intros [[K1 K2] Hi] Hn. rewrite reserve_eq. unfold reserve'.
+  destruct (gt_diff32 n (c_psize (w_c w)) (c_off_content (w_c w))) eqn:G1.
+  { split; [apply no_space_extn|discriminate]. }
+  destruct (c_at (w_c w) =? c_psize (w_c w)) eqn:Ea.
+  - apply Nat.eqb_eq in Ea.
+    assert (Ho : c_open (w_c w) = false).
+    { destruct (c_open (w_c w)) eqn:Eo; [|reflexivity].
+      rewrite (K1 eq_refl Ea), gt_diff32_full in G1; [discriminate|exact Hn]. }
+    destruct (fst (full_cb w)) eqn:Hf.
+    + split; [apply full_then_nospace, Hi|discriminate].
+    + destruct (full_then_open d w Hi Ho Hf) as [O2 [I2 X2]].
+      destruct (reserve2_proto d n _ I2 O2) as [X3 P3]. split; [eapply extn_trans; eauto|exact P3].
+  - apply Nat.eqb_neq in Ea.
+    assert (Ho : c_open (w_c w) = true).
+    { destruct (c_open (w_c w)) eqn:Eo; [reflexivity|]. elim Ea. apply K2. reflexivity. }
+    apply reserve2_proto; assumption.
+Qed.
+
+(* the tracing function *)
+Lemma trace_fn_proto d e args w :
+  pos_records d -> In e (d_erts d) -> KK w -> c_in_ts (w_c w) = false ->
+  extn w (trace_fn d e args w) /\ (w_err (trace_fn d e args w) = false -> KK (trace_fn d e args w)).
+Proof.
+  intros Hpos Hin K Hi. rewrite trace_fn_eq.
+  assert (X0 : extn w (trace_entry d w)).
+  { exists (entry_seg d w). split; [apply trace_entry_log|].
+    apply pn1_seg. unfold entry_seg. destruct (d_has_clock d); repeat constructor. cbn. auto. }
+  assert (K0 : KK (trace_entry d w)).
+  { unfold trace_entry. destruct (d_has_clock d); [|exact K]. rewrite clock_cb_eq.
+    eapply KK_same; [exact K|..]; up; togs; reflexivity. }
+  destruct (negb _); [split; [exact X0|intros _; exact K0]|].
+  set (w1 := trace_entry d w) in *. unfold trace_body. cbv zeta.
+  destruct (size_parts _ _) as [at_end|] eqn:Es.
+  2:{ split; [|up; discriminate]. eapply extn_trans; [exact X0|].
+      exists [EErr 4]. split; [reflexivity|intros la; exact I]. }
+  pose proof (Hpos e args _ _ Hin Es) as Hlt.
+  set (w2 := set_c w1 (set_in_ts (w_c w1) true)).
+  assert (K2 : KKin w2) by (split; [exact K0|reflexivity]).
+  destruct (reserve_proto d w2 (at_end - c_at (w_c w1)) K2) as [X3 O3]; [lia|].
+  pose proof (reserve_KKin d w2 (at_end - c_at (w_c w1)) K2) as [K3 I3].
+  set (r := reserve d w2 (at_end - c_at (w_c w1))) in *.
+  assert (X3' : extn w (snd r)) by (eapply extn_trans; [exact X0|exact X3]).
+  destruct (fst r) eqn:Hok; cbn [negb].
+  2:{ split; [eapply extn_eq_log_r; [|exact X3']; reflexivity|]. intros _.
+      eapply KK_same; [exact K3|..]; reflexivity. }
+  destruct (w_err (snd r)) eqn:Ee; [split; [exact X3'|congruence]|].
+  specialize (O3 eq_refl). unfold trace_ser. cbv zeta.
+  assert (B1 : blk pn1 true (snd r) (trace_mark d (snd r))).
+  { unfold trace_mark. apply opt_log_blk; [exact I3|]. exact I. }
+  assert (O4 : c_open (w_c (trace_mark d (snd r))) = true).
+  { unfold trace_mark. destruct (_ && _); exact O3. }
+  set (w3 := trace_mark d (snd r)) in *.
+  match goal with |- context [ser_parts d w3 ?ps] =>
+    destruct (ser_parts_blk d ps w3 (proj1 B1)) as [I5 E5];
+    destruct (ser_parts_keep d ps w3) as [K5 _]; set (w4 := ser_parts d w3 ps) in * end.
+  assert (X5 : extn w w4).
+  { eapply extn_trans; [exact X3'|]. eapply extn_trans.
+    - eapply ext_extn; [|apply B1]. auto.
+    - eapply ext_extn; [|exact E5]. intros e0; apply stok_pn1. }
+  assert (O5 : c_open (w_c w4) = true) by (unfold ser_keep in K5; intuition congruence).
+  destruct (w_err w4) eqn:Ee4; [split; [exact X5|congruence]|].
+  unfold trace_commit. cbv zeta.
+  destruct (c_at (w_c w4) =? c_psize (w_c w4)) eqn:Ea.
+  - destruct (close_cb_in d w4 I5 O5) as [_ [_ [seg [E F]]]].
+    split.
+    + eapply extn_eq_log_r; [reflexivity|]. eapply extn_trans; [exact X5|].
+      exists (ECb 2 true true :: seg). split; [exact E|]. intros la. cbn.
+      split; [discriminate|]. split; [auto|].
+      apply pn1_seg. eapply Forall_impl; [|exact F]. intros e0; apply midok_pn1.
+    + intros _. destruct (close_cb_dec d w4) as [[_ [_ [_ [_ X]]]]|[_ [O A]]].
+      * specialize (X I5). congruence.
+      * split; up; [congruence|auto].
+  - apply Nat.eqb_neq in Ea. split.
+    + eapply extn_eq_log_r; [|exact X5]. reflexivity.
+    + intros _. split; up; [intros _ H; elim Ea; exact H|congruence].
+Qed.
+
+(* whole histories *)
+Definition PI (w : world) : Prop :=
+  proto None (w_log w) /\ (w_err w = false -> KK w /\ c_in_ts (w_c w) = false).
+
+Lemma proto_extn w w' : proto None (w_log w) -> extn w w' -> proto None (w_log w').
+Proof. intros H [seg [E F]]. rewrite E. apply proto_app. split; [exact H|apply F]. Qed.
+
+Lemma step_PI d w k : pos_records d -> PI w -> PI (step d w k).
+Proof.
+  intros Hpos [HP HK]. unfold step. destruct (w_err w) eqn:Ee; [split; [exact HP|rewrite Ee; discriminate]|].
+  destruct (HK eq_refl) as [K Hi]. clear HK.
+  match goal with |- PI (if w_err ?W then _ else _) =>
+    assert (HW : PI W); [|destruct (w_err W) eqn:Ee2; [exact HW|]] end.
+  2:{ destruct HW as [HP2 HK2]. split; up.
+      - apply proto_app. split; [exact HP2|exact I].
+      - intros _. destruct (HK2 Ee2) as [K2 I2]. split; [|exact I2].
+        eapply KK_same; [exact K2|..]; reflexivity. }
+  destruct k as [ei args| | |b|].
+  - destruct (nth_error (d_erts d) ei) as [e|] eqn:En.
+    + destruct (trace_fn_proto d e args w Hpos (nth_error_In _ _ En) K Hi) as [X KX].
+      split; [eapply proto_extn; eauto|]. intros He. split; [apply KX, He|].
+      apply trace_fn_flag_off; assumption.
+    + split; up; [|discriminate]. apply proto_app. split; [exact HP|exact I].
+  - destruct (open_cb_blk d false w Hi) as [A E]. split.
+    + eapply proto_extn; [exact HP|]. eapply ext_extn; [|exact E]. apply evok_false_pn1.
+    + intros _. split; [apply open_cb_KK, K|exact A].
+  - destruct (close_cb_blk d false w Hi) as [A E]. split.
+    + eapply proto_extn; [exact HP|]. eapply ext_extn; [|exact E]. apply evok_false_pn1.
+    + intros _. split; [apply close_cb_KK, K|exact A].
+  - split; [exact HP|]. intros _. split; [|exact Hi]. eapply KK_same; [exact K|..]; reflexivity.
+  - destruct (_ && _); [|split; [exact HP|intros _; auto]].
+    destruct (close_cb_blk d false w Hi) as [A E]. split.
+    + eapply proto_extn; [exact HP|]. eapply ext_extn; [|exact E]. apply evok_false_pn1.
+    + intros _. split; [apply close_cb_KK, K|exact A].
+Qed.
+
+Lemma steps_PI d h w : pos_records d -> PI w -> PI (fold_left (step d) h w).
+Proof. intros Hpos. revert w. induction h as [|k h IH]; intros w H; cbn [fold_left]; auto. apply IH, step_PI; auto. Qed.
+
+(* C06 (c): hypotheses: every event record has positive size; the history starts with an opening
+   of the first packet that takes effect *)
+Theorem run_proto d buf pcargs oracle h :
+  pos_records d ->
+  c_open (w_c (run d buf pcargs oracle [COpen])) = true ->
+  proto None (w_log (run d buf pcargs oracle (COpen :: h))).
+Proof.
+  intros Hpos Hopen. unfold run in *. cbn [fold_left] in *.
+  set (w0 := mk_w _ _ _ _ _ _) in *.
+  apply steps_PI; [exact Hpos|].
+  assert (F0 : flag_inv (step d w0 COpen)).
+  { apply step_flag_inv. split; [constructor|]. intros _. split; reflexivity. }
+  split.
+  - unfold step. cbn [w_err w0]. fold w0.
+    destruct (open_cb_blk d false w0 eq_refl) as [_ E].
+    assert (P1 : proto None (w_log (open_cb d w0))).
+    { eapply (proto_extn w0); [exact I|]. eapply ext_extn; [|exact E]. apply evok_false_pn1. }
+    destruct (w_err (open_cb d w0)); [exact P1|]. up. apply proto_app. split; [exact P1|exact I].
+  - intros He. split; [|apply F0, He].
+    destruct (open_cb_dec d w0) as [[O _]|[_ [O [A _]]]].
+    + exfalso. revert Hopen. unfold step. cbn [w_err w0]. fold w0.
+      destruct (w_err (open_cb d w0)); up; rewrite O; cbn; discriminate.
+    + revert He. unfold step. cbn [w_err w0]. fold w0. intros He.
+      destruct (w_err (open_cb d w0)) eqn:Ee; [cbn in He; congruence|].
+      split; up; [intros _ H; congruence|congruence].
+Qed.
+
+(* for the non-vacuity examples *)
+Lemma align_up_ge at_ a : 0 < a -> at_ <= align_up at_ a.
+Proof.
+  intros Ha. unfold align_up.
+  pose proof (Nat.div_mod (at_ + (a - 1)) a ltac:(lia)) as E.
+  pose proof (Nat.mod_upper_bound (at_ + (a - 1)) a ltac:(lia)) as B.
+  rewrite (Nat.mul_comm a) in E. lia.
+Qed.
